@@ -297,7 +297,7 @@ class ConnGen:
         if tl is None:
             return self.step_bind(d, iface=d.choice(['xdg_toplevel', 'xdg_toplevel', 'zwlr_layer_shell_v1', 'wl_surface']))
         name = d.choice(['set_title', 'set_app_id'])
-        return dict(sent=self.sent(False), iface='xdg_toplevel', id=tl, name=name, args=[['str', '' if d.chance(0.25) else d.choice(STRS)]])
+        return dict(sent=self.sent(False), iface='xdg_toplevel', id=tl, name=name, args=[['str', '' if d.chance(0.25) else (d.choice(['b', 'B', 'c', 'C', 'a']) if d.chance(0.3) else d.choice(STRS))]])   # app ids that read like connection names
 
     def step_retype(self, d):
         """re-create a freed client id with a *different* interface and make the next message target it"""
@@ -363,6 +363,35 @@ class ConnGen:
                 return m
         return dict(sent=self.sent(d.chance(0.5)), iface=iface, id=oid, name=d.choice(['future_request', 'set_v99_thing', 'new', 'frob']), args=extra)
 
+    def step_nulls(self, d):
+        """a message whose nullable object arguments are all nil (nil arguments carry only their *declared* interface)"""
+        P = protocols()
+        cands = []
+        for oid, iface in sorted(self.live.items()):
+            pi = P.get(iface)
+            if pi is None:
+                continue
+            for m in pi.msgs:
+                if any(a.type == 'object' and a.allow_null for a in m.args) and all(a.type != 'new_id' and (a.type != 'object' or a.allow_null) for a in m.args):
+                    cands.append((oid, iface, m))
+        if not cands:
+            return self.step_bind(d, iface=d.choice(['wl_surface', 'wl_pointer', 'xdg_toplevel', 'wl_data_offer', 'wl_data_device', 'wl_subsurface']))
+        oid, iface, pm = d.choice(cands)
+        m = self._protocol_message(d, oid, iface, pm)
+        if m is None:
+            return None
+        for a, pa in zip(m['args'], pm.args):
+            if pa.type == 'object':
+                a[1], a[2] = pa.interface, None
+        return m
+
+    def step_appid(self, d):
+        """an app id that reads like a connection name (`connection b` must still mean the connection *named* B)"""
+        tl = self.pick_obj(d, 'xdg_toplevel')
+        if tl is None:
+            return self.step_bind(d, iface='xdg_toplevel')
+        return dict(sent=self.sent(False), iface='xdg_toplevel', id=tl, name='set_app_id', args=[['str', d.choice(['a', 'b', 'B', 'c', 'C', 'd'])]])
+
     def step_deep_reuse(self, d):
         """delete and re-create the same client id (towards incarnation letters beyond z)"""
         pool = sorted(i for i in self.dead if i < SERVER_BASE and i not in self.live)
@@ -382,7 +411,7 @@ class ConnGen:
                 m = self.step_first(d)
                 self.nmsg += 1
                 return m
-        w = self.profile.get('weights') or dict(delete=14, bind=12, message=40, server_event=10, deep=0, sync=4, enum=8, title=6, retype=6, newer=4)
+        w = self.profile.get('weights') or dict(delete=14, bind=12, message=40, server_event=10, deep=0, sync=4, enum=8, title=6, retype=6, newer=4, nulls=4)
         if kind is None:
             kind = d.weighted([(v, k) for k, v in sorted(w.items()) if v > 0])
         m = None
@@ -395,6 +424,8 @@ class ConnGen:
         elif kind == 'retype': m = self.step_retype(d)
         elif kind == 'kinds': m = self.step_kinds(d)
         elif kind == 'newer': m = self.step_newer(d)
+        elif kind == 'nulls': m = self.step_nulls(d)
+        elif kind == 'appid': m = self.step_appid(d)
         elif kind == 'sync': m = self.step_sync(d)
         elif kind == 'first' and 2 not in self.live and 2 not in self.dead: m = self.step_first(d)
         if m is None:
